@@ -208,6 +208,29 @@ Theorem c09_copy_export_text_equal : forall (T : Type) (mk : loc -> list bool) (
   forall n, E (munfold mk n h' (VRef lc)) = E (munfold mk n h (VRef la)).
 Proof. exact copy_export_text_equal. Qed.
 
+(** All classes at once: every census of the generated table passes [copy_export_ok] against the export reads of its
+    class (nested copies — the [HDeep] hypotheses of [c09_copy_export_equal] — are censuses of the same table). *)
+Definition lookup {A} (k : string) (l : list (string * A)) : option A :=
+  option_map snd (find (fun q => String.eqb (fst q) k) l).
+Definition all_export_ok : bool :=
+  forallb (fun p => match lookup (fst p) all_sources, lookup (fst p) class_of_label with
+                    | Some s, Some cls => match lookup cls all_export_reads with
+                                          | Some reads => copy_export_ok (snd p) s reads && reads_are_fields (snd p) reads
+                                          | None => false end
+                    | _, _ => false end) all_census.
+
+Theorem c09_all_classes_export_ok : all_export_ok = true ->
+  forall label c, In (label, c) all_census ->
+  exists s cls reads, lookup label all_sources = Some s /\ lookup label class_of_label = Some cls /\
+                      lookup cls all_export_reads = Some reads /\ copy_export_ok c s reads = true.
+Proof.
+  unfold all_export_ok. rewrite forallb_forall. intros H label c Hin. specialize (H _ Hin). cbn [fst snd] in H.
+  destruct (lookup label all_sources) as [s|] eqn:E1; [|discriminate].
+  destruct (lookup label class_of_label) as [cls|] eqn:E2; [|discriminate].
+  destruct (lookup cls all_export_reads) as [reads|] eqn:E3; [|discriminate].
+  apply andb_true_iff in H. destruct H as [H _]. exists s, cls, reads. repeat split; assumption.
+Qed.
+
 Theorem c09_copy_export_equal_not_vacuous :
   copy_export_ok ex_census ex_src_good ex_reads = true /\
   mobs_eq ex_mk ex_h (ex_h' 7%Z) (VRef 1%positive) (VRef 2%positive).
